@@ -3,6 +3,7 @@
 package c07
 
 import (
+	"github.com/bbockelm/cedar/ccb"
 	"bytes"
 	"context"
 	"encoding/binary"
@@ -536,6 +537,88 @@ func TestC07Histories(t *testing.T) {
 }
 
 // TestC07Directed: the small scripted scenarios every run must cover.
+// fixedAddrConn is a carrier connection: whatever it leads to, its transport-level remote address is the
+// tunnel mouth, the same for every broker reached through the carrier.
+type fixedAddrConn struct {
+	net.Conn
+}
+
+type tunnelAddr struct{}
+
+func (tunnelAddr) Network() string { return "tunnel" }
+func (tunnelAddr) String() string  { return "tunnel-mouth:0" }
+
+func (fixedAddrConn) RemoteAddr() net.Addr { return tunnelAddr{} }
+
+// TestC07Carrier: a CCB listener registering through a custom carrier (BrokerDialer) with two different
+// brokers, one cache: the session negotiated with broker A belongs to broker A's ADDRESS, not to the tunnel.
+func TestC07Carrier(t *testing.T) {
+	security.ClearSessionCache()
+	names := map[string]*srv{"broker-a.example:9618": servers[0], "broker-b.example:9618": servers[1]}
+	for _, s := range servers {
+		s.mu.Lock()
+		s.valid, s.breakNxt, s.sids, s.log = []int{ccb.CommandRegister}, "", nil, nil
+		s.mu.Unlock()
+	}
+	sec := kit.BaseConfig(security.SecurityRequired, security.SecurityRequired, security.AuthClaimToBe)
+	dial := func(ctx context.Context, addr string) (net.Conn, error) {
+		s := names[addr]
+		if s == nil {
+			return nil, fmt.Errorf("unknown broker %q", addr)
+		}
+		c, err := net.Dial("tcp", s.addr)
+		if err != nil {
+			return nil, err
+		}
+		return fixedAddrConn{c}, nil
+	}
+	owner := map[string]string{} // session id -> broker it was negotiated with
+	for step, name := range []string{"broker-a.example:9618", "broker-b.example:9618", "broker-a.example:9618", "broker-b.example:9618"} {
+		s := names[name]
+		s.takeLog()
+		ctx, cancel := context.WithTimeout(context.Background(), 3*time.Second)
+		l := ccb.NewListener(ccb.ListenerConfig{BrokerAddr: name, Security: sec, Dial: dial, Name: "verif", Handler: func(c net.Conn, _ ccb.InboundMeta) { _ = c.Close() }})
+		done := make(chan struct{})
+		go func() { _ = l.Run(ctx); close(done) }()
+		var logs []connLog
+		for tries := 0; tries < 400 && len(logs) == 0; tries++ {
+			time.Sleep(5 * time.Millisecond)
+			logs = append(logs, s.takeLog()...)
+		}
+		time.Sleep(30 * time.Millisecond)
+		logs = append(logs, s.takeLog()...)
+		cancel()
+		<-done
+		ev.Case("carrier/"+name, fmt.Sprintf("carrier:%d", step))
+		for _, other := range servers {
+			if other != s {
+				if l := other.takeLog(); len(l) > 0 {
+					kit.Violation("C07", "the listener for "+name+" connected to a different broker", map[string]any{"carrier_step": step})
+					t.Fatalf("C07 violated: the listener for %s connected to a different broker", name)
+				}
+			}
+		}
+		if len(logs) == 0 {
+			t.Logf("inconclusive: no connection reached broker %s", name)
+			continue
+		}
+		first := logs[0]
+		if first.resumeSid != "" {
+			if o := owner[first.resumeSid]; o != name {
+				v := fmt.Sprintf("registering with %s through the carrier, the client presented session %s, which it negotiated with %q: sessions reached through one carrier are filed under the tunnel, not under the broker's address", name, first.resumeSid, o)
+				kit.Violation("C07", v, map[string]any{"carrier_step": step})
+				t.Fatalf("C07 violated: %s", v)
+			}
+		}
+		for _, l := range logs {
+			if l.fullSid != "" {
+				owner[l.fullSid] = name
+			}
+		}
+	}
+	ev.Exhaustive("a CCB listener registering through one carrier with broker A, broker B, A again, B again, sharing one session cache")
+}
+
 func TestC07Directed(t *testing.T) {
 	hs := func(tag, srv, cmd, api int) Op { return Op{K: "handshake", Tag: tag, Srv: srv, Cmd: cmd, API: api} }
 	var cases []Case
